@@ -10,6 +10,12 @@ from decimal import Decimal
 _MARKER = object()
 
 
+def _number_to_str(value):
+    """Print a degree or a force the way the parser reads it: positional, never scientific notation
+    """
+    return format(value, "f") if isinstance(value, Decimal) else str(value)
+
+
 class Item(object):
     """Base class for all items that compose the parse tree.
 
@@ -335,7 +341,7 @@ class BaseApprox(Item):
     def __str__(self, head_tail=False):
         value = "%s~%s" % (
             self.term.__str__(head_tail=True),
-            self.degree if not self._implicit_degree else "",
+            _number_to_str(self.degree) if not self._implicit_degree else "",
         )
         return self._head_tail(value, head_tail)
 
@@ -392,7 +398,7 @@ class Boost(Item):
         return "%s(%s, %s)" % (self.__class__.__name__, self.expr.__repr__(), self.force)
 
     def __str__(self, head_tail=False):
-        force = "" if self.implicit_force else self.force
+        force = "" if self.implicit_force else _number_to_str(self.force)
         value = "%s^%s" % (self.expr.__str__(head_tail=True), force)
         return self._head_tail(value, head_tail)
 
